@@ -185,6 +185,7 @@ const (
 	avDyn                  // interface / reflect.Value / reflect.Type carrying a known dynamic type
 	avValid                // unknown, but a valid (non-nil) value
 	avNilPtr               // the nil pointer / nil error
+	avSet                  // one of a few known constants (join of different constants)
 	avTuple
 	avTop
 )
@@ -194,6 +195,7 @@ type aval struct {
 	c   constant.Value
 	a   atom
 	tup []aval
+	set []constant.Value
 }
 
 var top = aval{k: avTop}
@@ -218,6 +220,13 @@ func (v aval) String() string {
 		return "valid"
 	case avNilPtr:
 		return "nil"
+	case avSet:
+		var ss []string
+		for _, c := range v.set {
+			ss = append(ss, c.ExactString())
+		}
+		sort.Strings(ss)
+		return "{" + strings.Join(ss, "|") + "}"
 	case avTuple:
 		var s []string
 		for _, e := range v.tup {
@@ -243,6 +252,8 @@ func (v aval) eq(w aval) bool {
 			return false
 		}
 		return v.a == w.a
+	case avSet:
+		return v.String() == w.String()
 	case avTuple:
 		if len(v.tup) != len(w.tup) {
 			return false
@@ -272,6 +283,30 @@ func join(v, w aval) aval {
 			out.tup[i] = join(v.tup[i], w.tup[i])
 		}
 		return out
+	}
+	// different constants of one kind: keep the (small) set
+	consts := func(x aval) []constant.Value {
+		switch x.k {
+		case avConst:
+			return []constant.Value{x.c}
+		case avSet:
+			return x.set
+		}
+		return nil
+	}
+	if cv, cw := consts(v), consts(w); cv != nil && cw != nil && cv[0].Kind() == cw[0].Kind() && cv[0].Kind() != constant.Bool {
+		out := aval{k: avSet}
+		seen := map[string]bool{}
+		for _, c := range append(append([]constant.Value{}, cv...), cw...) {
+			if !seen[c.ExactString()] {
+				seen[c.ExactString()] = true
+				out.set = append(out.set, c)
+			}
+		}
+		if len(out.set) <= 12 {
+			return out
+		}
+		return top
 	}
 	nonNil := func(x aval) bool { return x.k == avValid || (x.k == avDyn && x.a != aNil) }
 	if nonNil(v) && nonNil(w) {
@@ -702,6 +737,27 @@ func (di *dynInterp) eval(f *ssa.Function, v ssa.Value, ins ssa.Instruction, get
 			if (x.Op == token.EQL || x.Op == token.NEQ || x.Op == token.LSS || x.Op == token.LEQ || x.Op == token.GTR || x.Op == token.GEQ) &&
 				a.c.Kind() != constant.Bool && b.c.Kind() != constant.Bool && a.c.Kind() != constant.String && b.c.Kind() != constant.String {
 				return cBool(constant.Compare(a.c, x.Op, b.c))
+			}
+		}
+		if x.Op == token.EQL || x.Op == token.NEQ {
+			var set, cst aval
+			okSet := false
+			if a.k == avSet && b.k == avConst {
+				set, cst, okSet = a, b, true
+			} else if b.k == avSet && a.k == avConst {
+				set, cst, okSet = b, a, true
+			}
+			if okSet {
+				member := false
+				for _, c := range set.set {
+					if c.Kind() == cst.c.Kind() && constant.Compare(c, token.EQL, cst.c) {
+						member = true
+					}
+				}
+				if !member {
+					return cBool(x.Op == token.NEQ)
+				}
+				return top
 			}
 		}
 		switch x.Op {
